@@ -7,6 +7,7 @@ import (
 	"io"
 	"os"
 	"path/filepath"
+	"strings"
 
 	"pault.ag/go/debian/deb"
 
@@ -34,7 +35,7 @@ func (c13) Batches(tier string, seed uint64) []core.Batch {
 
 func (c13) Mandatory(tier string) []string {
 	return []string{"members:0", "members:1", "members:2-4", "members:5+", "size:0", "size:odd", "last-odd:padded", "last-odd:unpadded", "name:16-bytes", "name:slash-terminated",
-		"blank-numeric-fields", "zero-padded-numeric-fields", "member-after-odd", "pad-byte:not-newline-then-member", "data:magic-inside", "delivery:bytes.Reader", "delivery:os.File", "delivery:exact-EOF-ReaderAt",
+		"blank-numeric-fields", "zero-padded-numeric-fields", "member-after-odd", "pad-byte:not-newline-then-member", "data:magic-inside", "delivery:bytes.Reader", "delivery:os.File", "delivery:exact-EOF-ReaderAt", "delivery:bytes.Reader:direct-after-read", "delivery:os.File:direct-after-read", "delivery:SectionReader:direct", "name:inner-slash",
 		"read:immediately", "read:after-advance", "read:continued-after-advance", "read:reseek", "read:ReadAt"}
 }
 
@@ -52,7 +53,7 @@ func genArMembers(r *core.Rand, maxMembers int) []model.ArMember {
 		n = r.Range(1, 4)
 	}
 	var out []model.ArMember
-	names := []string{"debian-binary", "control.tar.gz", "data.tar.xz", "control.tar.zst", "data.tar", "_gpgorigin", "x", "0123456789abcdef", "control.tar.lzma", "file with space", "a.b-c_d+e"}
+	names := []string{"debian-binary", "control.tar.gz", "data.tar.xz", "control.tar.zst", "data.tar", "_gpgorigin", "x", "0123456789abcdef", "control.tar.lzma", "file with space", "a.b-c_d+e", "sub/bare.o", "a/b/c", "x/y"}
 	for i := 0; i < n; i++ {
 		m := model.ArMember{Name: r.Pick(names), Timestamp: int64(r.Intn(2000000000)), Owner: int64(r.Intn(100000)), Group: int64(r.Intn(100000)),
 			Mode: r.Pick([]string{"100644", "100755", "644", "0"})}
@@ -108,7 +109,7 @@ func (p c13) run(c *core.C, t *core.T, cs c13Case) {
 	}
 	var src io.ReaderAt
 	cr := &core.CountingReaderAt{HeaderLen: 60, Size: int64(len(raw))}
-	switch cs.Delivery {
+	switch strings.TrimSuffix(cs.Delivery, ":direct-after-read") {
 	case "os.File":
 		path := filepath.Join(t.WorkDir, "c13.ar")
 		if err := os.WriteFile(path, raw, 0o644); err != nil {
@@ -129,7 +130,23 @@ func (p c13) run(c *core.C, t *core.T, cs c13Case) {
 		src = bytes.NewReader(raw)
 	}
 	cr.In = src
-	ar, err := deb.LoadAr(cr)
+	var input io.ReaderAt = cr
+	if strings.HasSuffix(cs.Delivery, ":direct-after-read") || cs.Delivery == "SectionReader:direct" {
+		// the reader itself, not a wrapper (it also has Seek, Size, ...), and - ReadAt being positional - after
+		// it was read sequentially: the caller sniffed the magic, or hashed the whole file first
+		input = src
+		if cs.Delivery == "SectionReader:direct" {
+			input = io.NewSectionReader(src, 0, int64(len(raw)))
+		}
+		if rd, ok := input.(io.Reader); ok {
+			n := int64(8)
+			if cs.Seed%2 == 0 {
+				n = int64(len(raw))
+			}
+			io.CopyN(io.Discard, rd, n)
+		}
+	}
+	ar, err := deb.LoadAr(input)
 	if err != nil {
 		c.Failf("LoadAr failed on a well-formed archive of %d members: %v", len(cs.Members), err)
 		return
@@ -248,6 +265,9 @@ func (p c13) run(c *core.C, t *core.T, cs c13Case) {
 		if m.Slash {
 			c.Cover("name:slash-terminated")
 		}
+		if strings.Contains(m.Name, "/") && !m.Slash {
+			c.Cover("name:inner-slash")
+		}
 		if m.Blank {
 			c.Cover("blank-numeric-fields")
 		}
@@ -310,7 +330,7 @@ func firstDiff(a, b []byte) int {
 func (p c13) RunBatch(t *core.T, b core.Batch) {
 	r := t.Rand("ar", fmt.Sprint(b.Arg))
 	for i := 0; i < b.N; i++ {
-		cs := c13Case{Members: genArMembers(r, 8), PadLast: r.Bool(), Delivery: r.Pick([]string{"bytes.Reader", "bytes.Reader", "os.File", "exact-EOF-ReaderAt"}), Seed: r.U64()}
+		cs := c13Case{Members: genArMembers(r, 8), PadLast: r.Bool(), Delivery: r.Pick([]string{"bytes.Reader", "bytes.Reader", "os.File", "exact-EOF-ReaderAt", "bytes.Reader:direct-after-read", "os.File:direct-after-read", "SectionReader:direct"}), Seed: r.U64()}
 		if r.Chance(1, 4) {
 			pb := r.PickByte("\x00\x00 `\xff0")
 			cs.Pad = &pb
